@@ -375,9 +375,7 @@ class Formatter:
 
         :return: The parsed elements
         """
-        escaped_fmt = re.escape(fmt)
-
-        tokens = self._FROM_FORMAT_RE.findall(escaped_fmt)
+        tokens = self._FORMAT_RE.findall(fmt)
         if not tokens:
             raise ValueError("The given time string does not match the given format")
 
@@ -402,9 +400,18 @@ class Formatter:
             "timestamp": None,
         }
 
-        pattern = self._FROM_FORMAT_RE.sub(
-            lambda m: self._replace_tokens(m.group(0), loaded_locale), escaped_fmt
-        )
+        # Same tokenization as format(): text escaped with [...] or a backslash
+        # is matched verbatim, like any other text between the tokens.
+        pattern = ""
+        position = 0
+        for m in self._FORMAT_RE.finditer(fmt):
+            pattern += re.escape(fmt[position : m.start()])
+            if m.group(3) is None:
+                pattern += re.escape(m.group(1) or m.group(2) or "")
+            else:
+                pattern += self._replace_tokens(m.group(3), loaded_locale)
+            position = m.end()
+        pattern += re.escape(fmt[position:])
 
         match = re.fullmatch(pattern, time)
         if not match:
